@@ -44,7 +44,7 @@ Definition guard (h : handle) (occ : occupant) : bool * handle :=
 (* the forms that call the guard first (ionice(None, v) fails on its arguments before it) *)
 Definition guarded (r : req) : bool :=
   match r with
-  | Nice (Some _) | Ionice (Some _) _ | Affinity (Some _) | Rlimit _ (Some _) | RlimitScalar _ _ => true
+  | Nice (Some _) | Ionice (Some _) _ | Affinity (Some _) | AffinityIt _ _ | Rlimit _ (Some _) | RlimitScalar _ _ => true
   | _ => false
   end.
 
@@ -72,7 +72,7 @@ Definition spec_hcall (h : handle) (occ : occupant) (r : req) (k : kernel) : opt
     if guarded r then
       match r with
       | Nice (Some v) => if fits_int v then Some (Exc NoSuchProcess, k) else None
-      | Affinity (Some _) => Some (Exc NoSuchProcess, k)
+      | Affinity (Some _) | AffinityIt _ _ => Some (Exc NoSuchProcess, k)
       | _ => None        (* argument errors may come first; the kernel is demanded unchanged by the theorem *)
       end
     else None
